@@ -25,12 +25,15 @@ Definition FieldsOf (d : dict) (m : metainfo) : Prop :=
 
 Lemma parse_meta_fields data d m : parse_meta data d = Some m ->
   FieldsOf d m /\ find_first key_info_raw data = Some (m_hash_input m) /\
-  (Metainfo_reject_total_overflow = true -> sum_lengths (m_files m) < two64).
+  (Metainfo_reject_total_overflow = true -> sum_lengths (m_files m) < two64) /\
+  (Metainfo_reject_unsafe_paths = true ->
+   safe_path (m_name m) = true /\ forallb (fun f => safe_path (f_path f)) (m_files m) = true).
 Proof.
   unfold parse_meta.
   destruct (find_length d) as [l|] eqn:EL; destruct (find_files d) as [fs|] eqn:EF; try discriminate;
     destruct (find_name d) as [name|] eqn:EN; try discriminate.
   - destruct (Metainfo_reject_total_overflow && negb (sum_lengths [mkfile l name] <? 18446744073709551616)) eqn:EO; [discriminate|].
+    destruct (Metainfo_reject_unsafe_paths && negb (safe_path name && forallb (fun f => safe_path (f_path f)) [mkfile l name])) eqn:EU; [discriminate|].
     destruct (find_announce d) as [a|] eqn:EA; [|discriminate].
     destruct (find_piece_length d) as [pl|] eqn:EP; [|discriminate].
     destruct (find_pieces d) as [ps|] eqn:EPS; [|discriminate].
@@ -38,7 +41,10 @@ Proof.
     intros [= <-]. cbn. unfold FieldsOf. cbn. repeat split; try assumption; try reflexivity.
     + left. exists l. repeat split; (assumption || reflexivity).
     + intros Hflag. rewrite Hflag in EO. unfold two64, sum_lengths in *. cbn [andb fold_left f_length] in EO. lia.
+    + match goal with H : Metainfo_reject_unsafe_paths = true |- _ => rewrite H in EU end. cbn [andb] in EU. apply negb_false_iff, andb_true_iff in EU. exact (proj1 EU).
+    + match goal with H : Metainfo_reject_unsafe_paths = true |- _ => rewrite H in EU end. cbn [andb] in EU. apply negb_false_iff, andb_true_iff in EU. exact (proj2 EU).
   - destruct (Metainfo_reject_total_overflow && negb (sum_lengths fs <? 18446744073709551616)) eqn:EO; [discriminate|].
+    destruct (Metainfo_reject_unsafe_paths && negb (safe_path name && forallb (fun f => safe_path (f_path f)) fs)) eqn:EU; [discriminate|].
     destruct (find_announce d) as [a|] eqn:EA; [|discriminate].
     destruct (find_piece_length d) as [pl|] eqn:EP; [|discriminate].
     destruct (find_pieces d) as [ps|] eqn:EPS; [|discriminate].
@@ -46,6 +52,8 @@ Proof.
     intros [= <-]. cbn. unfold FieldsOf. cbn. repeat split; try assumption; try reflexivity.
     + right. split; assumption.
     + intros Hflag. rewrite Hflag in EO. fold (sum_lengths fs). unfold two64. cbn [andb] in EO. lia.
+    + match goal with H : Metainfo_reject_unsafe_paths = true |- _ => rewrite H in EU end. cbn [andb] in EU. apply negb_false_iff, andb_true_iff in EU. exact (proj1 EU).
+    + match goal with H : Metainfo_reject_unsafe_paths = true |- _ => rewrite H in EU end. cbn [andb] in EU. apply negb_false_iff, andb_true_iff in EU. exact (proj2 EU).
 Qed.
 
 Lemma first_parsing_in data vs m : first_parsing data vs = Some m ->
@@ -124,7 +132,7 @@ Proof.
   intros F1 F2 H. unfold metainfo_of in H. destruct (decode data) as [vs| | |]; try discriminate.
   destruct (first_parsing data vs) as [m'|] eqn:E; [|discriminate]. injection H as <-.
   destruct (first_parsing_in data vs m' E) as (d & _ & Hp).
-  destruct (parse_meta_fields data d m' Hp) as ((_ & _ & HPL & _) & _ & Hsum). specialize (Hsum F2).
+  destruct (parse_meta_fields data d m' Hp) as ((_ & _ & HPL & _) & _ & Hsum & _). specialize (Hsum F2).
   pose proof (find_piece_length_pos d _ F1 HPL) as Hpl.
   assert (HT : total_length ovf m' = Ok (sum_lengths (m_files m'))).
   { unfold total_length. change (fun acc f => _) with (tl_step ovf). rewrite total_length_ok; [f_equal; lia | lia]. }
@@ -138,4 +146,14 @@ Proof.
       destruct (i <? pieces_num m' - 1); [discriminate|]. rewrite HT. cbn [bind].
       replace (m_piece_length m' =? 0) with false by lia.
       destruct (negb _); discriminate.
+Qed.
+
+(* C04: an accepted document carries only safe name / paths *)
+Theorem accepted_safe data m : Metainfo_reject_unsafe_paths = true -> metainfo_of data = Ok m ->
+  safe_path (m_name m) = true /\ forallb (fun f => safe_path (f_path f)) (m_files m) = true.
+Proof.
+  intros F H. unfold metainfo_of in H. destruct (decode data) as [vs| | |]; try discriminate.
+  destruct (first_parsing data vs) as [m'|] eqn:E; [|discriminate]. injection H as <-.
+  destruct (first_parsing_in data vs m' E) as (d & _ & Hp).
+  destruct (parse_meta_fields data d m' Hp) as (_ & _ & _ & Hs). exact (Hs F).
 Qed.
